@@ -14,6 +14,8 @@ from vlib import gparse, par
 from vlib.runner import Result, violation
 
 NEXT = b"GET /next HTTP/1.1\r\nHost: n\r\n\r\n"
+# many pipelined requests arriving in the same read as the head under test: bytes after the head's end are not head bytes
+BIGTAIL = NEXT * 280
 MAXLINE, MAXFIELDS, DEFSIZE = 8190, 32768, 8190
 
 
@@ -137,14 +139,12 @@ def _threshold_task(t):
         unlimited = False
     details = {}
     for size, stream in cases:
-        for tail in (b"", NEXT):
-            if where == "trailer" and tail:
-                pass
+        for tail in (b"", NEXT, BIGTAIL):
             for sname, chunks in segs(stream + tail):
                 evals += 1
                 ok, det = accepted(chunks, cfg)
-                results.setdefault((len(tail) > 0, sname), {})[size] = ok
-                details[(len(tail) > 0, sname, size)] = det
+                results.setdefault((len(tail), sname), {})[size] = ok
+                details[(len(tail), sname, size)] = det
     ts = set()
     for key, m in sorted(results.items()):
         sizes = sorted(m)
